@@ -5,73 +5,48 @@ namespace Libvna.ConvN
 open Libvna.LA
 variable {K : Type} [Add K] [Sub K] [Mul K] [Div K] [Neg K] [OfNat K 0] [OfNat K 1] [OfNat K 2] [Inhabited K]
 
-/-- rescale off-diagonal cells: `X(i,j) *= num(i,j) / den(i,j)` for i ≠ j -/
-def rescale (x : Array K) (n : Nat) (f : Nat → Nat → K) : Array K := Id.run do
-  let mut x := x
-  for i in [0:n] do
-    for j in [0:n] do
-      if i != j then x := set x n i j (get x n i j * f i j)
-  return x
+/-- the n×n array with entries f i j (row-major, as the C fills it cell by cell) -/
+def mk (n : Nat) (f : Nat → Nat → K) : Array K :=
+  (Array.range (n * n)).map fun idx => f (idx / n) (idx % n)
+
+/-- rescale off-diagonal cells: `X(i,j) *= f(i,j)` for i ≠ j -/
+def rescale (x : Array K) (n : Nat) (f : Nat → Nat → K) : Array K :=
+  mk n fun i j => if i != j then get x n i j * f i j else get x n i j
 
 def kvec (cj sqa : K → K) (z0 : Array K) (n : Nat) : Array K :=
   (Array.range n).map fun i => sqa ((z0[i]! + cj z0[i]!) / 2)
 
 /-- `vnaconv_stozn`: a = I − S, b = diag(z0*) + S diag(z0), Z = a⁻¹ b, Z(i,j) *= ki/kj -/
-def stozn (mag : K → Float) (cj sqa : K → K) (s z0 : Array K) (n : Nat) : Array K := Id.run do
-  if n = 0 then return #[]
-  let mut a : Array K := Array.replicate (n * n) 0
-  let mut b : Array K := Array.replicate (n * n) 0
-  for i in [0:n] do
-    for j in [0:n] do
-      a := set a n i j (-(get s n i j))
-      b := set b n i j (get s n i j * z0[j]!)
-    a := set a n i i (get a n i i + 1)
-    b := set b n i i (get b n i i + cj z0[i]!)
+def stozn (mag : K → Float) (cj sqa : K → K) (s z0 : Array K) (n : Nat) : Array K :=
+  if n = 0 then #[] else
+  let a := mk n fun i j => if i == j then -(get s n i j) + 1 else -(get s n i j)
+  let b := mk n fun i j => if i == j then get s n i j * z0[j]! + cj z0[i]! else get s n i j * z0[j]!
   let k := kvec cj sqa z0 n
-  let (z, _) := mldivide mag a b n n
-  return rescale z n fun i j => k[i]! / k[j]!
+  rescale (mldivide mag a b n n).1 n fun i j => k[i]! / k[j]!
 
 /-- `vnaconv_stoyn`: a = diag(z0*) + S diag(z0), b = I − S, Y = a⁻¹ b, Y(i,j) *= ki/kj -/
-def stoyn (mag : K → Float) (cj sqa : K → K) (s z0 : Array K) (n : Nat) : Array K := Id.run do
-  if n = 0 then return #[]
-  let mut a : Array K := Array.replicate (n * n) 0
-  let mut b : Array K := Array.replicate (n * n) 0
-  for i in [0:n] do
-    for j in [0:n] do
-      a := set a n i j (get s n i j * z0[j]!)
-      b := set b n i j (-(get s n i j))
-    a := set a n i i (get a n i i + cj z0[i]!)
-    b := set b n i i (get b n i i + 1)
+def stoyn (mag : K → Float) (cj sqa : K → K) (s z0 : Array K) (n : Nat) : Array K :=
+  if n = 0 then #[] else
+  let a := mk n fun i j => if i == j then get s n i j * z0[j]! + cj z0[i]! else get s n i j * z0[j]!
+  let b := mk n fun i j => if i == j then -(get s n i j) + 1 else -(get s n i j)
   let k := kvec cj sqa z0 n
-  let (y, _) := mldivide mag a b n n
-  return rescale y n fun i j => k[i]! / k[j]!
+  rescale (mldivide mag a b n n).1 n fun i j => k[i]! / k[j]!
 
 /-- `vnaconv_ztosn`: b = Z − diag(z0*), a = Z + diag(z0), S = b a⁻¹, S(i,j) *= kj/ki -/
-def ztosn (mag : K → Float) (cj sqa : K → K) (z z0 : Array K) (n : Nat) : Array K := Id.run do
-  if n = 0 then return #[]
-  let mut a : Array K := z
-  let mut b : Array K := z
-  for i in [0:n] do
-    b := set b n i i (get b n i i - cj z0[i]!)
-    a := set a n i i (get a n i i + z0[i]!)
+def ztosn (mag : K → Float) (cj sqa : K → K) (z z0 : Array K) (n : Nat) : Array K :=
+  if n = 0 then #[] else
+  let a := mk n fun i j => if i == j then get z n i j + z0[i]! else get z n i j
+  let b := mk n fun i j => if i == j then get z n i j - cj z0[i]! else get z n i j
   let k := kvec cj sqa z0 n
-  let (s, _) := mrdivide mag b a n n
-  return rescale s n fun i j => k[j]! / k[i]!
+  rescale (mrdivide mag b a n n).1 n fun i j => k[j]! / k[i]!
 
 /-- `vnaconv_ytosn`: b = I − diag(z0*) Y, a = I + diag(z0) Y, S = b a⁻¹, S(i,j) *= kj/ki -/
-def ytosn (mag : K → Float) (cj sqa : K → K) (y z0 : Array K) (n : Nat) : Array K := Id.run do
-  if n = 0 then return #[]
-  let mut a : Array K := Array.replicate (n * n) 0
-  let mut b : Array K := Array.replicate (n * n) 0
-  for i in [0:n] do
-    for j in [0:n] do
-      b := set b n i j (-(cj z0[i]!) * get y n i j)
-      a := set a n i j (z0[i]! * get y n i j)
-    b := set b n i i (get b n i i + 1)
-    a := set a n i i (get a n i i + 1)
+def ytosn (mag : K → Float) (cj sqa : K → K) (y z0 : Array K) (n : Nat) : Array K :=
+  if n = 0 then #[] else
+  let b := mk n fun i j => if i == j then -(cj z0[i]!) * get y n i j + 1 else -(cj z0[i]!) * get y n i j
+  let a := mk n fun i j => if i == j then z0[i]! * get y n i j + 1 else z0[i]! * get y n i j
   let k := kvec cj sqa z0 n
-  let (s, _) := mrdivide mag b a n n
-  return rescale s n fun i j => k[j]! / k[i]!
+  rescale (mrdivide mag b a n n).1 n fun i j => k[j]! / k[i]!
 
 /-- `vnaconv_ztoyn` / `vnaconv_ytozn`: matrix inverse -/
 def inv (mag : K → Float) (z : Array K) (n : Nat) : Array K :=
